@@ -1,8 +1,11 @@
 package core
 
 import (
+	"encoding/hex"
 	"errors"
 	"fmt"
+	"math"
+	"strconv"
 	"strings"
 
 	"github.com/truora/minidyn/types"
@@ -32,7 +35,7 @@ func (ks keySchema) getKeyValue(attrs map[string]string, item map[string]*types.
 		return "", err
 	}
 
-	hashKeyStr := fmt.Sprintf("%v", val)
+	hashKeyStr := keyPart(val, attrs[ks.HashKey])
 
 	if ks.RangeKey == "" {
 		return hashKeyStr, nil
@@ -45,9 +48,43 @@ func (ks keySchema) getKeyValue(attrs map[string]string, item map[string]*types.
 		return "", err
 	}
 
-	key = append(key, fmt.Sprintf("%v", val))
+	key = append(key, keyPart(val, attrs[ks.RangeKey]))
 
 	return strings.Join(key, "."), nil
+}
+
+// keyPart renders a key attribute value so that equal values give equal strings and the
+// order of the strings is the order of the values: numbers by numeric value (whatever their
+// notation), binaries bytewise, strings as they are.
+func keyPart(val interface{}, typ string) string {
+	switch typ {
+	case "N":
+		text, _ := val.(string)
+
+		f, err := strconv.ParseFloat(text, 64)
+		if err != nil {
+			return text
+		}
+
+		if f == 0 {
+			f = 0 // negative zero is zero
+		}
+
+		bits := math.Float64bits(f)
+		if bits&(1<<63) == 0 {
+			bits |= 1 << 63
+		} else {
+			bits = ^bits
+		}
+
+		return fmt.Sprintf("%016x", bits)
+	case "B":
+		if b, ok := val.([]byte); ok {
+			return hex.EncodeToString(b)
+		}
+	}
+
+	return fmt.Sprintf("%v", val)
 }
 
 // escapeKeySeparator escapes the separator (and the escape character) inside the
